@@ -20,7 +20,8 @@ RULE = ('E2 explicit-state exploration of library state: events (42: '
         'SHA-256 of a deep snapshot of every pamqp module global, class '
         'attribute and function default/closure; BFS with deduplication '
         '(closes at 2 states: switch off/on) plus every history of depth <= 2 '
-        '(thorough 3) without deduplication, each rebuilt from a fresh '
+        'and every a;b;a history (thorough: every history of depth 3) '
+        'without deduplication, each rebuilt from a fresh '
         'import; oracle: every event\'s canonical result equals the result '
         'of that event alone in a fresh interpreter (one subprocess per '
         'event x switch value) and mutable members of returned objects are '
@@ -31,7 +32,7 @@ RULE = ('E2 explicit-state exploration of library state: events (42: '
         'result; a witness harness with a toggle shows the interleavings are '
         'real. A state is a history or a schedule; non-trivial = history of '
         'length >= 2 / schedule with >= 1 preemption.')
-BOUNDS = {'quick': {'history_depth': 2, 'threads': 2, 'preemptions': '2 (1 for the header and 3-thread harnesses)'},
+BOUNDS = {'quick': {'history_depth': '2 + all a;b;a', 'threads': 2, 'preemptions': '2 (1 for the header and 3-thread harnesses)'},
           'thorough': {'history_depth': 3, 'threads': '2 and 3',
                        'preemptions': '3 (2 for the header and 3-thread '
                        'harnesses)'}}
@@ -199,6 +200,14 @@ def explore_histories(ctx, first, depth):
         for rest in itertools.product(range(n), repeat=length - 1):
             hist = (first,) + rest
             ctx.case(('hist', hist), length >= 2, sample=lambda: {
+                'history': [EVENTS[i][0] for i in hist]})
+            run_history(ctx, hist)
+    if depth < 3:
+        # every a; b; a history: does an intervening call change what the
+        # same call returns (stale caches, retained buffers)?
+        for b in range(n):
+            hist = (first, b, first)
+            ctx.case(('hist', hist), True, sample=lambda: {
                 'history': [EVENTS[i][0] for i in hist]})
             run_history(ctx, hist)
 
